@@ -381,6 +381,13 @@ def iteCtx (label : String) (lt le : Bool) (ctx : List String) : IteCtx :=
 def scopeTail (c : String) (tl : Tail) : Tail :=
   if c == "loop" then .loop else if c == "func" || c == "defer" then .fn else tl
 
+/-- Calls that the skeleton looks through: closures and small wrappers of the Go source that are
+not units of the tie (`check` of the three console back ends, the IOS reload wrappers, the writer
+of the status file).  The translator decides by what a callee is (module-local, not a unit,
+talks to the device), so turning `check` into a method, inlining a wrapper or renaming
+`write` changes nothing. -/
+def inlineNames : List String := ["check", "scheduleReload", "extendReload", "write"]
+
 /-- `skelT p ctx tl`: call sites of `p` in the normal form of `translate/skeleton`, `p` standing
 in tail position `tl`.  A `call` is one site (its body belongs to the callee's own skeleton);
 primitives are the sites `<send>` / `<recv>`.  The normal form makes `if c {A} else {B}`,
@@ -426,7 +433,10 @@ def skelT : Sess → List String → Tail → List Site
   | .setCtr _, _, _ => []
   | .decCtr, _, _ => []
   | .setPlan, _, _ => []
-  | .call name lits _, ctx, _ => [⟨name, lits, ctx⟩]
+  | .call name lits body, ctx, _ =>
+    -- helpers outside the vocabulary of the tie are inlined (the translator inlines every
+    -- module-local helper that talks to the device and is not a unit of its own)
+    if inlineNames.contains name then skelT body ctx .fn else [⟨name, lits, ctx⟩]
   | .scope c body, ctx, tl => skelT body (ctx ++ [c]) (scopeTail c tl)
   | .when _ body, ctx, tl => skelT body ctx tl
   | .assumeBanner, _, _ => []
@@ -449,7 +459,40 @@ def rassoc : Sess → Sess
   | .when c body => .when c (rassoc body)
   | p => p
 
+/-- `rassoc`, also inside the bodies of calls (they are looked through for `inlineNames`) -/
+def rassocAll : Sess → Sess
+  | .seq a b => seqApp (rassocAll a) (rassocAll b)
+  | .ite c l t e => .ite c l (rassocAll t) (rassocAll e)
+  | .forEach body => .forEach (rassocAll body)
+  | .defer cleanup body => .defer (rassocAll cleanup) (rassocAll body)
+  | .loopN n body => .loopN n (rassocAll body)
+  | .loopFuel body => .loopFuel (rassocAll body)
+  | .scope c body => .scope c (rassocAll body)
+  | .when c body => .when c (rassocAll body)
+  | .call name lits body => .call name lits (rassocAll body)
+  | p => p
+
+/-- `if c {T} else {E}; K` where exactly one branch always leaves: `K` belongs to the other branch
+(`switch x {case a: return …}; return y` is the chain with `return y` as its else).  Applied to a
+right-nested program, with fuel for the nesting depth. -/
+def absorbN : Nat → Sess → Sess
+  | 0, p => p
+  | n + 1, .seq (.ite c l t e) b =>
+    if leaves t && !leaves e then .ite c l (absorbN n t) (absorbN n (seqApp e b))
+    else if leaves e && !leaves t then .ite c l (absorbN n (seqApp t b)) (absorbN n e)
+    else .seq (.ite c l (absorbN n t) (absorbN n e)) (absorbN n b)
+  | n + 1, .seq a b => .seq (absorbN n a) (absorbN n b)
+  | n + 1, .ite c l t e => .ite c l (absorbN n t) (absorbN n e)
+  | n + 1, .forEach body => .forEach (absorbN n body)
+  | n + 1, .defer cleanup body => .defer (absorbN n cleanup) (absorbN n body)
+  | n + 1, .loopN k body => .loopN k (absorbN n body)
+  | n + 1, .loopFuel body => .loopFuel (absorbN n body)
+  | n + 1, .scope c body => .scope c (absorbN n body)
+  | n + 1, .when c body => .when c (absorbN n body)
+  | n + 1, .call name lits body => .call name lits (absorbN n body)
+  | _ + 1, p => p
+
 /-- the skeleton of a function body -/
-def skel (p : Sess) (ctx : List String) : List Site := skelT (rassoc p) ctx .fn
+def skel (p : Sess) (ctx : List String) : List Site := skelT (absorbN 200 (rassocAll p)) ctx .fn
 
 end NA.Sess
